@@ -623,8 +623,8 @@ class CodeGenerator:
                     test_block = new_test_block
 
         self.builder.set_block(test_block)
-        assert default_block
-        self.emit(ir.Jump(default_block))
+        # Without else part nothing is done when no constant matches:
+        self.emit(ir.Jump(default_block if default_block else final_block))
         self.builder.set_block(final_block)
 
     def gen_procedure_call(self, call: statements.ProcedureCall):
